@@ -103,6 +103,7 @@ def run_property(pid, args, contracts, seed):
 
     # ---- verdicts
     n_obl = 0
+    n_known_obl = 0
     n_dis = 0
     canaries = dict(total=0, refuted=0, not_proved=0)
     covers = dict(total=0, sat=0, unknown=0)
@@ -197,11 +198,15 @@ def run_property(pid, args, contracts, seed):
                 continue
             if fe is not None:
                 known_printed.append("KNOWN-FINDING: property=%s %s [%s / %s]" % (pid, fe["what"], r["contract"], r["name"]))
+                n_obl -= 1
+                n_known_obl += 1
                 continue
             violations.append("VIOLATION property=%s replay=%s%s" % (pid, path, "" if confirmed else " no-failing-input-found"))
         else:
             if fe is not None:
                 known_printed.append("KNOWN-FINDING: property=%s %s [%s / %s]" % (pid, fe["what"], r["contract"], r["name"]))
+                n_obl -= 1
+                n_known_obl += 1
                 continue
             if changed:
                 alt = _search_native(r["contract"], r["name"], seed, 400)
@@ -312,7 +317,7 @@ def run_property(pid, args, contracts, seed):
             crashes.append("bounded harness crashed: " + traceback.format_exc()[-1500:])
 
     # ---- obligation-count guard (vacuity: a run that generates fewer obligations than the ledger is broken)
-    led = ledger.get("properties", {}).get(pid)
+    led = ledger.get("properties", {}).get(pid + ":" + tier)
     if led and not args.contract and n_obl < led.get("min_obligations", 0) and not violations:
         # fewer obligations can legitimately happen when a path disappears; only a drop to < 60 % is treated as breakage
         if n_obl < 0.6 * led["min_obligations"]:
@@ -347,8 +352,9 @@ def run_property(pid, args, contracts, seed):
               covers["sat"], covers["total"], bounded["runs"], len(violations), len(known_printed), len(undecided), wall))
 
     if os.environ.get("D3VC_WRITE_LEDGER") and not args.contract and exit_code == 0:
-        _update_ledger(pid, exp, recs, n_obl)
+        _update_ledger(pid + ":" + tier, exp, recs, n_obl)
     if not args.no_evidence and not args.contract:
+        write_evidence.n_known_obl = n_known_obl
         write_evidence(pid, tier, seed, sel, exp, recs, n_obl, n_dis, by_backend, solver_cpu, solver_wall, canaries, covers,
                        bounded, extra, violations, known_printed, undecided, unavailable, samples, wall)
     return exit_code
@@ -459,6 +465,7 @@ def write_evidence(pid, tier, seed, sel, exp, recs, n_obl, n_dis, by_backend, so
         rule="obligations are distinct when their SMT-LIB text differs; syntactically true goals are not counted as non-trivial; "
              "bounded cases are distinct random inputs that satisfy the contract's precondition",
     )
+    cov["obligations_failing_as_listed_known_findings"] = getattr(write_evidence, "n_known_obl", 0)
     if pid == "C05":
         cov["lean_rules_checked_at_setup"] = os.path.exists(os.path.join(VERIF, ".work", "lean_ok"))
     if extra is not None:
